@@ -23,7 +23,7 @@ import sys
 from harness import common, scriptlib as sl
 
 PROP = 'C04'
-THEOREMS = ['C04_trace', 'C04_terminates', 'C04_const', 'C04_sum', 'C04_fixed_len']
+THEOREMS = ['C04_trace', 'C04_terminates', 'C04_const', 'C04_sum', 'C04_fixed_len', 'C04_edit_distance']
 MODELS = ['theories/MachineSpec.vo', 'theories/MachineModel.vo']
 HEADER = ('From Coq Require Import ZArith List Bool.\nRequire Import GT.PyBase GT.Data GT.MachineSpec.\n'
           'Import ListNotations.\nOpen Scope Z_scope.\n')
@@ -58,6 +58,7 @@ class Monitor:
         self.tdepth = {}
         self.bdepth = {}
         self.steps = 0
+        self.calls = 0
 
     def entry(self, o):
         i = id(o)
@@ -87,6 +88,9 @@ class Monitor:
 
         def wrap_bounds(orig):
             def bounds(self):
+                mon.calls += 1
+                if mon.calls > MAX_CALLS:
+                    raise RuntimeError('call budget exceeded: the drive does not terminate')
                 i = id(self)
                 d = mon.bdepth.get(i, 0)
                 mon.bdepth[i] = d + 1
@@ -102,6 +106,9 @@ class Monitor:
 
         def wrap_tighten(orig):
             def tighten_bounds(self):
+                mon.calls += 1
+                if mon.calls > MAX_CALLS:
+                    raise RuntimeError('call budget exceeded: the drive does not terminate')
                 i = id(self)
                 d = mon.tdepth.get(i, 0)
                 outer = d == 0 and mon.bdepth.get(i, 0) == 0
@@ -141,6 +148,7 @@ class Monitor:
 
 MON = Monitor()
 MAX_STEPS = 2000000
+MAX_CALLS = 1500000      # bounds()/tighten_bounds() calls per item (the largest thorough-tier items need ~10^5)
 DIRTY = [False]     # a monitored drive raised in this process: graphtage's global state may be unusable
 
 
@@ -245,9 +253,19 @@ def impl_trace(item):
         if i != root_id and not any(e[0] == 'T' for e in evs):
             n_const += 1
             continue
-        objs.append([cname, evs])
+        # transport encoding: runs of identical consecutive bounds() observations are sent once (the Gallina side
+        # compares the model's trace after the same compression, dedup_B); a run that raised is cut after 300 events
+        # per object (holds_C04 is false for it anyway, the prefix is what the replay shows)
+        out = []
+        for e in evs:
+            if e[0] == 'B' and out and out[-1] == e:
+                continue
+            out.append(e)
+        if crashed and len(out) > 300:
+            out = out[:300]
+        objs.append([cname, out])
     res = {'a': ta, 'b': tb, 'root': root_id is not None and mode == 'active', 'crashed': crashed, 'objs': objs,
-           'steps': MON.steps, 'unstepped_objects': n_const}
+           'steps': MON.steps, 'calls': MON.calls, 'unstepped_objects': n_const}
     MON.reset('active')
     if crashed:
         DIRTY[0] = True
@@ -339,7 +357,7 @@ def gen_items(tier, rng):
         for o in (('auto', 'on'), ('none', 'off'), ('match', 'same')):
             items.append({'a': a, 'b': b, 'opts': list(o), 'mode': 'active'})
     q = tier == 'quick'
-    n_list, n_doc, n_pass, n_kvp, n_search = (150, 90, 60, 30, 12) if q else (2500, 1500, 800, 300, 150)
+    n_list, n_doc, n_pass, n_kvp, n_search = (300, 180, 120, 50, 25) if q else (2500, 1500, 800, 300, 150)
     for k in range(n_list):            # the modelled fragment: correspondence is decided on these
         r = rng.random()
         if r < 0.35:
@@ -394,7 +412,8 @@ KF_CLASSES = []      # (finding id, Gallina class predicate) of the OPEN finding
 def evaluate(run, wd, st, items, tag='cases'):
     res = common.run_impl('pC04', 'impl_trace', items, timeout_item=180)
     ok = []
-    stats = {'steps': 0, 'objects': 0, 'events': 0, 'classes': {}, 'crashed': 0, 'root_classes': {}}
+    stats = {'steps': 0, 'objects': 0, 'events': 0, 'classes': {}, 'crashed': 0, 'root_classes': {}, 'max_calls': 0,
+             'oversized_skipped': 0}
     for it, r in zip(items, res):
         nontriv = it['a'] != it['b'] and (isinstance(it['a'], (list, dict)) or isinstance(it['b'], (list, dict)))
         run.count([it['a'], it['b'], it['opts'], it.get('mode'), it.get('kvp'), it.get('bs')], nontriv)
@@ -403,6 +422,10 @@ def evaluate(run, wd, st, items, tag='cases'):
                            'note': 'the worker failed outside the monitored drive'})
             continue
         o = r['ok']
+        stats['max_calls'] = max(stats['max_calls'], o.get('calls', 0))
+        if sum(len(evs) for _, evs in o['objs']) > 60000 and not o['crashed']:
+            stats['oversized_skipped'] += 1      # too large for one Gallina term (none in the quick tier)
+            continue
         ok.append((it, o))
         stats['steps'] += o['steps']
         stats['objects'] += len(o['objs'])
@@ -422,7 +445,7 @@ def evaluate(run, wd, st, items, tag='cases'):
     else:
         header += 'Record ccase := { cc_case : case; cc_root : bool }.\n'
     terms = [ccase_term(o) for _, o in ok]
-    bad, err = common.coq_eval_cases(wd, tag, header, terms, evals, chunk=40)
+    bad, err = eval_sized(wd, tag, header, terms, evals)
     if err:
         run.violation({'kind': 'case-evaluation-failed', 'error': err}, no_input=True)
         return ok, [], [[] for _ in KF_CLASSES], [], [], stats
@@ -431,10 +454,36 @@ def evaluate(run, wd, st, items, tag='cases'):
     return ok, bad[0], bad[1:1 + nk], bad_corr, modelled, stats
 
 
-def describe(it, o, idx=None):
+def eval_sized(wd, tag, header, terms, evals, limit=1200000):
+    """common.coq_eval_cases over chunks of bounded text size (a single huge definition overflows coqc's stack)."""
+    results = [[] for _ in evals]
+    start, k = 0, 0
+    while start < len(terms):
+        end, size = start, 0
+        while end < len(terms) and (end == start or size + len(terms[end]) <= limit) and end - start < 60:
+            size += len(terms[end])
+            end += 1
+        bad, err = common.coq_eval_cases(wd, f'{tag}_{k}', header, terms[start:end], evals, chunk=100)
+        if err:
+            return None, err
+        for j, b in enumerate(bad):
+            results[j] += [start + i for i in b]
+        start, k = end, k + 1
+    return results, None
+
+
+def describe(wd, it, o, tag):
+    """Replay object of a failing case; the objects whose own trace fails (as decided by holds_events in Coq) first."""
     objs = o['objs']
-    return {'input': it, 'crashed': o['crashed'],
-            'objects': [{'class': c, 'events': evs} for c, evs in objs[:40]]}
+    order = list(range(len(objs)))
+    term = f'map (fun o => holds_events (ot_events o)) (c_objs {case_term(o)})'
+    vals, err = common.coq_eval_terms(wd, 'describe_' + tag, HEADER, [term])
+    if vals and not err:
+        flags = [x.strip() for x in vals[0].strip().strip('[]').split(';') if x.strip()]
+        if len(flags) == len(objs):
+            order = [i for i, f in enumerate(flags) if f == 'false'] + [i for i, f in enumerate(flags) if f != 'false']
+    return {'input': it, 'crashed': o['crashed'], 'failing_objects_first': True,
+            'objects': [{'class': objs[i][0], 'events': objs[i][1]} for i in order[:25]]}
 
 
 def check(tier, seed):
@@ -456,7 +505,7 @@ def check(tier, seed):
                 continue
             if n_viol < 3:
                 it, o = ok[i]
-                run.violation({'kind': 'holds_C04-false', **describe(it, o)})
+                run.violation({'kind': 'holds_C04-false', **describe(wd, it, o, f'v{i}')})
             n_viol += 1
         for k, its in reported.items():
             f = open_ids[k]
@@ -480,6 +529,8 @@ def check(tier, seed):
         run.cov['object_classes'] = stats['classes']
         run.cov['root_classes_active'] = stats['root_classes']
         run.cov['runs_that_raised'] = stats['crashed']
+        run.cov['max_calls_per_item'] = stats['max_calls']
+        run.cov['oversized_skipped'] = stats['oversized_skipped']
         run.cov['known_finding_cases'] = {k: len(v) for k, v in reported.items()}
         run.cov['modelled_classes'] = MODELLED
         run.cov['trace_only_classes'] = TRACE_ONLY
@@ -491,7 +542,7 @@ def check(tier, seed):
                 for i in bh2:
                     known = [k for (k, _), idx in zip(KF_CLASSES, kfs2) if i in idx and k in open_ids]
                     if not known:
-                        run.violation({'kind': 'holds_C04-false', **describe(*ok2[i])})
+                        run.violation({'kind': 'holds_C04-false', **describe(wd, ok2[i][0], ok2[i][1], f's{s2}_{i}')})
                         found = True
                         break
                 if found:
